@@ -1,7 +1,7 @@
 /-
 C06 helper lemmas: termination and the amortised linear bound of the `process_emphasis` model `emLoop`.
 
-Potential: for each of the 12 `openers_bottom` classes the number of delimiters at or above the class's
+Potential: for each of the 17 `openers_bottom` classes the number of delimiters at or above the class's
 bottom, plus the number of delimiters, plus the characters they still have, plus the delimiters still to
 be visited as closers. A failed search for class `i` walks over (at most) the delimiters of `left` that are
 counted for `i` and then raises the bottom to the closer: they are never counted for `i` again. A successful
@@ -86,8 +86,8 @@ theorem potA_zero (ds : List Delim) : ∀ K, potA (fun _ => 0) [] ds K = K * ds.
     have h := cntGe_eq_length 0 ds (fun _ _ => Nat.zero_le _)
     simp only [potA, potA_zero ds K, cntGe, h, Nat.add_mul]; omega
 
-theorem bottomIx_lt (c : Delim) : bottomIx c < 12 := by
-  unfold bottomIx
+theorem bottomIx_lt (fix : Bool) (c : Delim) : bottomIx fix c < 17 := by
+  unfold bottomIx bottomIxNew bottomIxOld
   have : c.len % 3 < 3 := Nat.mod_lt _ (by omega)
   repeat' split
   all_goals omega
@@ -217,7 +217,7 @@ theorem emLoop_terminates (fix : Bool) : ∀ (fuel : Nat) (bot : Nat → Nat) (l
           obtain ⟨k, hk⟩ := ih bot (shrink o (useChars o c) below) (shrink c (useChars o c) above) (by omega)
           exact ⟨_, by rw [hk]; rfl⟩
         · obtain ⟨k, hk⟩ := ih
-            (if (fix || !(emSearch c (bot (bottomIx c)) left).mod3) = true then fun k => if k = bottomIx c then c.pos else bot k else bot)
+            (if (alwaysRaise fix c || !(emSearch c (bot (bottomIx fix c)) left).mod3) = true then fun k => if k = bottomIx fix c then c.pos else bot k else bot)
             (if c.canOpen = true then c :: left else left) above (by omega)
           exact ⟨_, by rw [hk]; rfl⟩
       · obtain ⟨k, hk⟩ := ih bot (c :: left) above (by omega)
@@ -233,21 +233,21 @@ structure EmInv (P : Delim → Prop) (bot : Nat → Nat) (left right : List Deli
   pr : ∀ d ∈ right, P d
 
 def emPot (bot : Nat → Nat) (left right : List Delim) : Nat :=
-  potA bot left right 12 + (left.length + right.length) + (sumCur left + sumCur right) + right.length
+  potA bot left right 17 + (left.length + right.length) + (sumCur left + sumCur right) + right.length
 
 /-- The closer moves up after a failed search for class `i` whose bottom is raised to the closer: the
     delimiters of `left` counted for `i` leave the potential. -/
-theorem potA_failed (bot : Nat → Nat) (left above : List Delim) (c : Delim) (i : Nat) (hi : i < 12)
+theorem potA_failed (bot : Nat → Nat) (left above : List Delim) (c : Delim) (i : Nat) (hi : i < 17)
     (hlt : ∀ d ∈ left, d.pos < c.pos) (hab : ∀ e ∈ above, c.pos < e.pos) (hbc : bot i ≤ c.pos)
     (left' : List Delim) (hl : left' = c :: left ∨ left' = left) :
-    potA (fun k => if k = i then c.pos else bot k) left' above 12 + cntGe (bot i) left
-      ≤ potA bot left (c :: above) 12 := by
-  have hu := potA_update bot left' above i c.pos 12 hi
+    potA (fun k => if k = i then c.pos else bot k) left' above 17 + cntGe (bot i) left
+      ≤ potA bot left (c :: above) 17 := by
+  have hu := potA_update bot left' above i c.pos 17 hi
   have h1 : cntGe c.pos above = above.length := cntGe_eq_length _ _ (fun e he => Nat.le_of_lt (hab e he))
   have h2 : cntGe (bot i) above = above.length :=
     cntGe_eq_length _ _ (fun e he => Nat.le_trans hbc (Nat.le_of_lt (hab e he)))
   have h3 : cntGe c.pos left = 0 := cntGe_eq_zero _ _ hlt
-  have hm : potA bot left' above 12 ≤ potA bot left (c :: above) 12 := by
+  have hm : potA bot left' above 17 ≤ potA bot left (c :: above) 17 := by
     apply potA_mono
     intro b
     rcases hl with rfl | rfl <;> simp only [cntGe] <;> omega
@@ -256,7 +256,8 @@ theorem potA_failed (bot : Nat → Nat) (left above : List Delim) (c : Delim) (i
   · omega
 
 theorem emLoop_bound (P : Delim → Prop) (hP : ∀ d n, P d → P { d with cur := n }) (fix : Bool)
-    (hfix : fix = true ∨ ∀ o c, P o → P c → o.canOpen = true → c.canClose = true → o.ch = c.ch → oddMatch o c = false) :
+    (hfix : ∀ c, P c → c.canClose = true → alwaysRaise fix c = true ∨
+      ∀ o, P o → o.canOpen = true → o.ch = c.ch → oddMatch o c = false) :
     ∀ (fuel : Nat) (bot : Nat → Nat) (left right : List Delim), EmInv P bot left right →
     sumCur right + right.length ≤ fuel →
     ∃ k, emLoop fix fuel bot left right = some k ∧ k ≤ emPot bot left right := by
@@ -320,9 +321,9 @@ theorem emLoop_bound (P : Delim → Prop) (hP : ∀ d n, P d → P { d with cur 
             · exact shrink_P P hP o _ below (fun x hx => hI.pl x (by rw [hleft]; exact List.mem_append_right _ hx))
             · exact shrink_P P hP c _ above hI.pr
           obtain ⟨k, hk, hkb⟩ := ih bot _ _ hI' (by omega)
-          refine ⟨1 + (emSearch c (bot (bottomIx c)) left).cost + k, by rw [hk]; rfl, ?_⟩
-          have hm : potA bot (shrink o (useChars o c) below) (shrink c (useChars o c) above) 12
-              ≤ potA bot left (c :: above) 12 := by
+          refine ⟨1 + (emSearch c (bot (bottomIx fix c)) left).cost + k, by rw [hk]; rfl, ?_⟩
+          have hm : potA bot (shrink o (useChars o c) below) (shrink c (useChars o c) above) 17
+              ≤ potA bot left (c :: above) 17 := by
             apply potA_mono
             intro b
             have h1 := shrink_cnt b o (useChars o c) below
@@ -337,13 +338,13 @@ theorem emLoop_bound (P : Delim → Prop) (hP : ∀ d n, P d → P { d with cur 
           omega
         · -- no opener
           rename_i hhit
-          have hbot : (if (fix || !(emSearch c (bot (bottomIx c)) left).mod3) = true
-              then fun k => if k = bottomIx c then c.pos else bot k else bot)
-              = fun k => if k = bottomIx c then c.pos else bot k := by
-            rcases hfix with rfl | hno
-            · simp
-            · have := emSearch_nomod3 c (bot (bottomIx c)) left
-                (fun o ho h1 h2 => hno o c (hI.pl o ho) (hI.pr c (by simp)) h1 hclose h2)
+          have hbot : (if (alwaysRaise fix c || !(emSearch c (bot (bottomIx fix c)) left).mod3) = true
+              then fun k => if k = bottomIx fix c then c.pos else bot k else bot)
+              = fun k => if k = bottomIx fix c then c.pos else bot k := by
+            rcases hfix c (hI.pr c (by simp)) hclose with har | hno
+            · simp [har]
+            · have := emSearch_nomod3 c (bot (bottomIx fix c)) left
+                (fun o ho h1 h2 => hno o (hI.pl o ho) h1 h2)
               simp [this]
           rw [hbot]
           have hl : (if c.canOpen = true then c :: left else left) = c :: left
@@ -351,16 +352,16 @@ theorem emLoop_bound (P : Delim → Prop) (hP : ∀ d n, P d → P { d with cur 
             split
             · exact Or.inl rfl
             · exact Or.inr rfl
-          have hbc : bot (bottomIx c) ≤ c.pos := hI.botle _ c (by simp)
-          have hI' := hmove (fun k => if k = bottomIx c then c.pos else bot k) _ hl (by
+          have hbc : bot (bottomIx fix c) ≤ c.pos := hI.botle _ c (by simp)
+          have hI' := hmove (fun k => if k = bottomIx fix c then c.pos else bot k) _ hl (by
             intro i e he
-            by_cases hi : i = bottomIx c
+            by_cases hi : i = bottomIx fix c
             · simp only [hi, if_true]; exact Nat.le_of_lt (hab e he)
             · simp only [hi, if_false]; exact hI.botle i e (by simp [he]))
           obtain ⟨k, hk, hkb⟩ := ih _ _ above hI' (by omega)
-          refine ⟨1 + (emSearch c (bot (bottomIx c)) left).cost + k, by rw [hk]; rfl, ?_⟩
-          have hpf := potA_failed bot left above c (bottomIx c) (bottomIx_lt c) hlt hab hbc _ hl
-          have hcl := emSearch_cost_le c (bot (bottomIx c)) left
+          refine ⟨1 + (emSearch c (bot (bottomIx fix c)) left).cost + k, by rw [hk]; rfl, ?_⟩
+          have hpf := potA_failed bot left above c (bottomIx fix c) (bottomIx_lt fix c) hlt hab hbc _ hl
+          have hcl := emSearch_cost_le c (bot (bottomIx fix c)) left
           simp only [emPot] at hkb ⊢
           simp only [List.length_cons, sumCur]
           rcases hl with hl | hl <;> rw [hl] at hkb hpf <;> (try simp only [List.length_cons, sumCur] at hkb) <;> omega
@@ -368,7 +369,7 @@ theorem emLoop_bound (P : Delim → Prop) (hP : ∀ d n, P d → P { d with cur 
         have hI' := hmove bot (c :: left) (Or.inl rfl) (fun i e he => hI.botle i e (by simp [he]))
         obtain ⟨k, hk, hkb⟩ := ih bot (c :: left) above hI' (by omega)
         refine ⟨1 + k, by rw [hk]; rfl, ?_⟩
-        have hm : potA bot (c :: left) above 12 ≤ potA bot left (c :: above) 12 := by
+        have hm : potA bot (c :: left) above 17 ≤ potA bot left (c :: above) 17 := by
           apply potA_mono; intro b; simp only [cntGe]; omega
         simp only [emPot] at hkb ⊢
         simp only [List.length_cons, sumCur] at hkb ⊢
